@@ -26,10 +26,19 @@ structure RsT where
   dir : Nat := 0      -- task.direction: 0 none, 1 down, 2 up
   comm : Nat := 0     -- µs since the reporting block last ran
   pend : Nat := 0     -- armed delayed trigger: 0 none, 1 down, 2 up (supla_esp_gpio_rs_set_relay_delayed)
-  sinceStop : Nat := 2000000  -- µs since both outputs went off (saturating is not needed: only compared with 0.9 s)
+  sinceStop : Nat := 2000000  -- µs from the start of the callback/command that switched both outputs off
+  lag : Nat := 0              -- µs from that instant to the stop stamp: the `down` relay is written second, one relay_hi later
   deriving Repr, DecidableEq
 
 def known (p : Nat) : Bool := 100 ≤ p && p ≤ 10100
+
+/-- a start is postponed when `RS_START_DELAY - elapsed_ms + 1 > 100`, i.e. while less than 901 ms have passed since the stop
+    stamp (RS_START_DELAY 1000) -/
+def startGate : Nat := 901000
+
+/-- duration of one supla_esp_gpio_relay_hi (10 µs + RELAY_DOUBLE_TRY + 10 µs): set_relay(OFF) writes `up` first, then `down` -/
+def relayHiUs : Nat := 10020
+
 
 /-- supla_esp_gpio_rs_calibrate: an unknown position becomes the end position once the motor has run
     110 % of the full time in one direction -/
@@ -44,14 +53,14 @@ def account (P : RsP) (s : RsT) (dt : Nat) : RsT :=
     let m := movePos { fullMs := P.fo, tiltMs := 0, ttype := 0, up := true } { pos := p0, tilt := 0, time := t }
     let off := decide (known m.pos ∧ P.fo ≠ 0 ∧ m.pos = 100 ∧ s.tstate = 0 ∧ m.time / 1000 ≥ P.fo * P.margin / 100)
     { s with pos := m.pos, upT := m.time, downT := 0, rel := if off then 0 else 2, sinceStop := if off then 0 else s.sinceStop,
-             pend := if off then 0 else s.pend }
+             pend := if off then 0 else s.pend, lag := if off then 0 else s.lag }
   else if s.rel = 1 then
     let t := s.downT + dt
     let p0 := calibrateStep P.fc t 10100 s.pos
     let m := movePos { fullMs := P.fc, tiltMs := 0, ttype := 0, up := false } { pos := p0, tilt := 0, time := t }
     let off := decide (known m.pos ∧ P.fc ≠ 0 ∧ m.pos = 10100 ∧ s.tstate = 0 ∧ m.time / 1000 ≥ P.fc * P.margin / 100)
     { s with pos := m.pos, downT := m.time, upT := 0, rel := if off then 0 else 1, sinceStop := if off then 0 else s.sinceStop,
-             pend := if off then 0 else s.pend }
+             pend := if off then 0 else s.pend, lag := if off then relayHiUs else s.lag }
   else { s with upT := 0, downT := 0, sinceStop := s.sinceStop + dt }
 
 /-- the zero-margin guard at the moment an output would be energised -/
@@ -63,13 +72,14 @@ def guardOn (P : RsP) (s : RsT) (want : Nat) : Nat :=
     handed to the delayed trigger, otherwise the guarded output is energised now -/
 def relReq (P : RsP) (s : RsT) (want : Nat) : RsT :=
   let s0 : RsT := { s with pend := 0 }
-  let s1 : RsT := if s0.rel ≠ 0 ∧ s0.rel ≠ want then { s0 with rel := 0, sinceStop := 0 } else s0
-  if s1.rel = 0 ∧ s1.sinceStop < 900000 then { s1 with pend := want }
+  let s1 : RsT := if s0.rel ≠ 0 ∧ s0.rel ≠ want then { s0 with rel := 0, sinceStop := 0, lag := 0 } else s0
+  if s1.rel = 0 ∧ s1.sinceStop < startGate + s1.lag then { s1 with pend := want }
   else { s1 with rel := guardOn P s1 want }
 
 /-- switching both outputs off -/
 def relOff (s : RsT) : RsT :=
-  { s with pend := 0, rel := 0, sinceStop := if s.rel ≠ 0 then 0 else s.sinceStop }
+  { s with pend := 0, rel := 0, sinceStop := if s.rel ≠ 0 then 0 else s.sinceStop,
+           lag := if s.rel = 1 then relayHiUs else if s.rel = 2 then 0 else s.lag }
 
 /-- the delayed trigger fires: the stored request is executed (the start delay has passed) -/
 def fireTrig (P : RsP) (s : RsT) : RsT :=
